@@ -11,6 +11,7 @@ import (
 
 	"verif/core"
 	"verif/fwd"
+	"verif/seqx"
 	"verif/sig"
 )
 
@@ -289,7 +290,7 @@ func runSignalling(res *core.Result) {
 		for _, prefix := range sigPrefixes {
 			for _, raw := range alpha {
 				n++
-				if n%o.Shards != o.Shard {
+				if n%o.Shards != o.Shard || !core.Want("signalling/single-message") {
 					continue
 				}
 				if !core.TimeLeft() {
@@ -348,7 +349,7 @@ func runSignalling(res *core.Result) {
 		for _, f := range firsts {
 			for _, raw := range alpha {
 				n++
-				if n%o.Shards != o.Shard {
+				if n%o.Shards != o.Shard || !core.Want("signalling/message-pairs") {
 					continue
 				}
 				if !core.TimeLeft() {
@@ -370,6 +371,10 @@ func runSignalling(res *core.Result) {
 	pairs.Bound = fmt.Sprintf("full product: states(%d) x first messages(%d) x second messages(%d)", len(pprefixes), len(firsts), len(alpha))
 	pairs.WallS = time.Since(t1).Seconds()
 	res.AddSub(pairs)
+
+	if o.Shard == o.Shards-1 && core.Want("signalling/delayed-delivery") {
+		res.AddSub(seqx.Explore(delayedConfig(), res))
+	}
 }
 
 // replaySignalling re-runs one replay artefact of this family.
